@@ -7,7 +7,7 @@ for D in refactors/C*; do
   for F in $D/refactor_*.diff; do
     WT=/tmp/refac_regress_$$
     git -C /repo worktree add -q --detach "$WT" HEAD || exit 3
-    if git -C "$WT" apply "$F" 2>/dev/null; then
+    if git -C "$WT" apply "/verif/$F" 2>/dev/null; then
       OUT=$(VERIF_REPO="$WT" VERIF_NPROC=${VERIF_NPROC:-8} ./check $P --tier quick 2>&1)
       echo "$F violations=$(echo "$OUT" | grep -c '^VIOLATION') $(echo "$OUT" | grep RESULT | grep -o 'exit=[0-9].*undecided=[0-9]*')"
     else
